@@ -48,6 +48,7 @@ type sockSpec struct {
 type hostSpec struct {
 	Router int        `json:"router"`
 	NIPs   int        `json:"nIPs"` // 0 = one automatically assigned address
+	Legacy bool       `json:"legacy,omitempty"` // the last static address is given in the deprecated NetConfig.StaticIP field (next to StaticIPs)
 	Socks  []sockSpec `json:"socks"`
 }
 
@@ -133,7 +134,7 @@ func gen(r *harn.Rng, tier string) interface{} {
 	// hosts: at least one per router
 	for ri := range sc.Routers {
 		for k, n := 0, r.Range(1, 2); k < n; k++ {
-			h := hostSpec{Router: ri, NIPs: r.Pick(0, 1, 1, 2)}
+			h := hostSpec{Router: ri, NIPs: r.Pick(0, 1, 1, 2), Legacy: r.Bool(0.3)}
 			if sc.Routers[ri].OneToOne {
 				h.NIPs = 1
 			}
@@ -616,7 +617,11 @@ func run(env *simrt.Env, sci interface{}) {
 		for j := 0; j < hs.NIPs; j++ {
 			static = append(static, fmt.Sprintf("%s.%d", base, 10+k+20*j))
 		}
-		n, err := vnet.NewNet(&vnet.NetConfig{StaticIPs: static})
+		ncfg := &vnet.NetConfig{StaticIPs: static}
+		if hs.Legacy && len(static) > 0 {
+			ncfg = &vnet.NetConfig{StaticIPs: static[:len(static)-1], StaticIP: static[len(static)-1]}
+		}
+		n, err := vnet.NewNet(ncfg)
 		if err != nil {
 			env.Infra("NewNet: %v", err)
 			return
@@ -640,6 +645,18 @@ func run(env *simrt.Env, sci interface{}) {
 		if len(h.ips) == 0 {
 			env.Infra("host without address")
 			return
+		}
+		// a host owns exactly the static addresses it was configured with (whichever field carried
+		// them): datagrams to each of them have a NIC to go to
+		if len(static) > 0 {
+			want := append([]string(nil), static...)
+			have := append([]string(nil), h.ips...)
+			sort.Strings(want)
+			sort.Strings(have)
+			if strings.Join(want, ",") != strings.Join(have, ",") {
+				env.Fail("C01/host-lacks-configured-address", "host %d was configured with the static addresses %v (StaticIPs %v, StaticIP %q) and attached without error, but its interface holds %v", hi, static, ncfg.StaticIPs, ncfg.StaticIP, h.ips)
+				return
+			}
 		}
 		w.hosts = append(w.hosts, h)
 	}
@@ -1045,13 +1062,31 @@ func run(env *simrt.Env, sci interface{}) {
 			if c.spec.OneToOne {
 				continue
 			}
-			key := chainKey(orig, lvl)
+			// the NAT knows the internal endpoint by its address: a socket re-bound to the address of a
+			// closed one continues its mappings, and what it sends adds permissions to them
+			root := func(s *sockT) *sockT {
+				for again := true; again; {
+					again = false
+					for _, p := range w.socks {
+						if p.succ == s && p != s {
+							s, again = p, true
+							break
+						}
+					}
+				}
+				return s
+			}
+			keyOf := func(st *sentT) string {
+				k := chainKey(st, lvl)
+				return fmt.Sprintf("s%d", root(st.from).gi) + k[strings.Index(k+"|", "|"):]
+			}
+			key := keyOf(orig)
 			ok := false
 			for _, other := range w.sents {
-				if (other.phase2 && other.kind != "direct") || other.from != orig.from || len(other.chain) < lvl || other.ret == 0 {
+				if (other.phase2 && other.kind != "direct") || root(other.from) != root(orig.from) || len(other.chain) < lvl || other.ret == 0 {
 					continue
 				}
-				if chainKey(other, lvl) == key && part(c.spec.Filtering, other.dstAddr) == part(c.spec.Filtering, src) {
+				if keyOf(other) == key && part(c.spec.Filtering, other.dstAddr) == part(c.spec.Filtering, src) {
 					ok = true
 				}
 			}
